@@ -29,6 +29,15 @@ violations.
 Open findings switch constructs off per target (FINDINGS below); a module is
 generated once per distinct switch set, so a construct that is broken on one
 target only stays in the workload of the other.
+
+Guards (not findings): the value returned by a function without result is
+ignored (the native ctypes prototype returns an arbitrary int); NaN bit
+patterns are kept out of memory / reinterpret / copysign by a sanitiser in the
+generated code itself (vlib.wasmgen.FuncGen.no_nan), because the spec leaves
+sign and payload of NaN results open.  Narrowed w.r.t. DESIGN: imports are
+host functions only (the native target cannot link globals/memories), the
+thorough tier runs 8000 modules (DESIGN: 10 k) and has no unrestricted
+"neutralise and retest" sweep.
 """
 import json
 import os
@@ -82,6 +91,10 @@ finding("py-float-const-inf-nan-nameerror", ["python"], ["no-nonfinite-float-con
 finding("py-exported-float-global-unreadable", ["python"], ["no-exported-float-global"])
 finding("py-f32-arithmetic-not-rounded", ["python"], ["no-f32-arith"])
 finding("call-indirect-no-signature-check", ["python"], ["no-call-indirect-sig-mismatch"])
+finding("py-f32-runtime-helpers-not-rounded", ["python"], ["no-f32-sqrt-demote"])
+finding("py-f32-convert-i64-double-rounding", ["python"], ["f32-convert-i64-53bit"])
+finding("py-call-indirect-no-bounds-check", ["python"], ["no-call-indirect-oob"])
+finding("native-x86-variable-shift-miscompiled-under-pressure", ["native"], ["const-shift-count"])
 finding("wasm2ir-loop-in-dead-code-crash", TARGETS, ["no-loop-in-dead-code"])
 finding("py-imported-func-in-elem-keyerror", ["python"], ["no-imported-func-in-elem"])
 
@@ -95,17 +108,14 @@ def flags_for(avoid, target):
     for key in avoid:
         if key in FINDINGS and target in FINDINGS[key][0]:
             out.update(FINDINGS[key][1])
-    dev = os.environ.get("C22_DEV_FLAGS_" + target.upper())
-    if dev is not None:
-        out = set(x for x in dev.split(",") if x)
     return out
 
 
 def plan(tier, seed, avoid):
     from vlib import wasmgen as g
 
-    nmod = 400 if tier == "quick" else 10000
-    per = 16 if tier == "quick" else 100
+    nmod = 400 if tier == "quick" else 8000
+    per = 16 if tier == "quick" else 125
     specs = [{"part": "gen", "start": s, "n": min(per, nmod - s)} for s in range(0, nmod, per)]
     ops = sorted(g.SIG)
     grp = 10
@@ -230,7 +240,7 @@ class Shard:
         d[k] = d.get(k, 0) + n
 
     def violation(self, summary, case):
-        if len(self.viol) < int(os.environ.get("C22_DEV_VIOLCAP", "10")):
+        if len(self.viol) < 10:
             self.viol.append({"summary": summary, "case": case})
 
     def result(self):
@@ -495,11 +505,11 @@ def matrix_skip(g, op, types, vals, flags):
         return "float-div-nonzero-divisor"
     if base in ("eq", "ne", "lt", "le") and types[0] in ("f32", "f64") and "float-cmp-gt-ge-only" in flags and nan:
         return "float-cmp-gt-ge-only"
-    if op in ("f32.convert_i64_s", "f32.convert_i64_u") and "no-f32-arith" in flags:
+    if op in ("f32.convert_i64_s", "f32.convert_i64_u") and ("no-f32-arith" in flags or "f32-convert-i64-53bit" in flags):
         # single f32 operators are exact after the final rounding except int -> double -> single double rounding
         x = vals[0] if op.endswith("_s") else vals[0] % (1 << 64)
         if abs(x).bit_length() - ((abs(x) & -abs(x)).bit_length() if x else 0) >= 53:
-            return "no-f32-arith"
+            return "f32-convert-i64-53bit"
     return None
 
 
@@ -703,6 +713,26 @@ def _witness_modules():
               table={"min": 1, "max": 1}, elems=[{"offset": ["i32.const", 0], "funcs": [0]}])
     assert sig["types"][1] == [["i32"], ["i32"]]
     mods["sig"] = (sig, [{"f": "ci", "args": [["i32", "3"]], "ret": "i32"}])
+    tb = mod([("two", [], "i32", [["i32.const", 2]]),
+              ("ci", ["i32"], "i32", [["local.get", 0], ["call_indirect", 0]])],
+             table={"min": 1, "max": 1}, elems=[{"offset": ["i32.const", 0], "funcs": [0]}])
+    mods["tableoob"] = (tb, [{"f": "ci", "args": [["i32", "0"]], "ret": "i32"}, {"f": "ci", "args": [["i32", "-1"]], "ret": "i32"}])
+    # 4 values live across two runtime calls, select, then a variable shift
+    sh = mod([("sh", ["i32"], "i64", [
+        ["local.get", 1], ["global.get", 1],
+        ["global.get", 0], ["f64.convert_i64_s"], ["f64.const", g.f64_bits(-1.5)], ["f64.mul"], ["i64.trunc_sat_f64_s"],
+        ["local.get", 1], ["local.get", 2], ["i64.or"],
+        ["f64.const", g.f64_bits(1.5)], ["i32.trunc_f64_s"], ["select"], ["i64.shr_u"], ["i64.add"]])],
+        globals=[{"typ": "i64", "mut": False, "init": ["i64.const", 11]},
+                 {"typ": "i64", "mut": True, "init": ["i64.const", -9007199254740993]}])
+    sh["funcs"][0]["locals"] = ["i64", "i64"]
+    f32m = mod([("sq2", ["f32"], "f32", [["local.get", 0], ["f32.sqrt"], ["f32.sqrt"]]),
+                ("dem", ["f64"], "f64", [["local.get", 0], ["f32.demote_f64"], ["f64.promote_f32"]]),
+                ("cvt", ["i64"], "f32", [["local.get", 0], ["f32.convert_i64_s"]])])
+    mods["f32rt"] = (f32m, [{"f": "sq2", "args": [["f32", "5f7fffff"]], "ret": "f32"},
+                            {"f": "dem", "args": [["f64", _f64(0.1)]], "ret": "f64"},
+                            {"f": "cvt", "args": [["i64", "1152921573326323713"]], "ret": "f32"}])
+    mods["shiftsel"] = (sh, [{"f": "sh", "args": [["i32", "3"]], "ret": "i64"}])
     return mods
 
 
@@ -716,8 +746,11 @@ def witness(target, name):
 
     if target not in _WITNESS:
         mods = _witness_modules()
-        want = {"python": ["divov", "pure", "deadloop", "impelem", "oob", "infconst", "fglobal", "sig", "unreach"],
-                "native": ["div0", "rems", "unreach", "pure", "deadloop"]}[target]
+        want = {# tableoob first: its witness relies on being the first module of the process (index -1 reads the
+                # table's size field, 1, which is then used as the process-wide function pointer number 1)
+                "python": ["tableoob", "divov", "pure", "deadloop", "impelem", "oob", "infconst", "fglobal", "sig",
+                           "unreach", "shiftsel", "f32rt"],
+                "native": ["div0", "rems", "unreach", "pure", "deadloop", "shiftsel"]}[target]
         jobs = []
         for n in want:
             desc, calls = mods[n]
@@ -750,6 +783,14 @@ def _expect(target, mod, fn, want, what):
         ok = got.startswith(("trap:", "exc:"))
     else:
         ok = got == want
+    return None if ok else "%s target: %s gives %s, spec: %s" % (target, what, got, want)
+
+
+def _expect_k(target, mod, k, want, what):
+    """like _expect for the k-th call of a witness whose calls go to one function"""
+    inst, calls, end = witness(target, mod)
+    got = _WITNESS[target][0][mod]["calls"].get(k, "not-run") if inst == "ok" else "instantiate: %s" % inst
+    ok = got.startswith(("trap:", "exc:")) if want == "trap" else got == want
     return None if ok else "%s target: %s gives %s, spec: %s" % (target, what, got, want)
 
 
@@ -787,6 +828,15 @@ PROBES = {
                                                         end and end.get("globals")))(witness("python", "fglobal")[2]),
     "py-f32-arithmetic-not-rounded": lambda: _expect("python", "pure", "f32sum", "00000000",
                                                       "(16777216f + 1f) - 16777216f in f32"),
+    "py-f32-runtime-helpers-not-rounded": lambda: "; ".join(x for x in (
+        _expect("python", "f32rt", "sq2", "477fffff", "f32.sqrt(f32.sqrt(0x1.fffffep+63))"),
+        _expect("python", "f32rt", "dem", "3fb99999a0000000", "f64.promote_f32(f32.demote_f64(0.1))")) if x) or None,
+    "py-f32-convert-i64-double-rounding": lambda: _expect("python", "f32rt", "cvt", "5d800001",
+                                                           "f32.convert_i64_s(0x1000001000000001)"),
+    "py-call-indirect-no-bounds-check": lambda: _expect_k("python", "tableoob", 1, "trap",
+                                                          "call_indirect with index -1 into a table of size 1"),
+    "native-x86-variable-shift-miscompiled-under-pressure": lambda: _expect(
+        "native", "shiftsel", "sh", "65503", "g1 >>u select(trunc_sat(...), l1|l2, trunc(1.5)) + l1 (g1 = -(2^53+1))"),
     "call-indirect-no-signature-check": lambda: _expect("python", "sig", "ci", "trap",
                                                         "call_indirect (type (i32)->i32) of a (f32)->i32 function"),
 }
